@@ -149,6 +149,10 @@ def _effects_job(state, case):
         for i, o in enumerate(operands):
             if not memo_only(before[i], snap(o)):
                 wit.bad(key, f"{where}: operand {i + 1} is not the same after the operation (blocks, signs, indices, charge or labels changed)")
+        if name.split(" ; ")[-1].startswith("copy") and isinstance(r, Obj):
+            missing = sorted(set(prog.all_slots(r.cls)) - set(r.fields) - {"_hashkey"})
+            if missing:
+                wit.bad(f"R14.8|slots {name.split(' ; ')[-1].split('(')[0]}|{anchor.fq}", f"{where}: the copy lacks the slots {missing} of its class")
         shared = {owned[k] for k in tables(r) if k in owned}
         if r is x or (isinstance(r, (tuple, list)) and any(y_ is x for y_ in r)):
             wit.bad(key, f"{where}: not asked to work in place, the operation hands out its operand itself (a later in-place operation on the "
